@@ -141,6 +141,8 @@ def monitor(c):
 
 
 def run(ctx, out):
+    import families as _fam
+    out.evaluations += _fam.construction_paths_family(out, PROP)
     import families, random as _random
     out.evaluations += families.noninit_tuple_family(out, PROP, _random.Random(ctx['seed']))
     out.rule = ('types (all constructors of the grammar, equivalent spellings chosen at random: List/list/MutableSequence, Tuple[T,...]/'
